@@ -159,10 +159,12 @@ def encodeString (val : Bytes) : Bytes :=
   | [] => 0x22 :: pre ++ [0x22]
   | _ => 0x22 :: pre ++ slowPath rest ++ [0x22]
 
+def digitChar (n : Nat) : UInt8 := UInt8.ofNat (0x30 + n)
+
 /-- Decimal digits of `n` (most significant first); 20 digits cover every uint64. -/
 def natDigitsF : Nat → Nat → Bytes
   | 0, _ => []
-  | f + 1, n => if n < 10 then [UInt8.ofNat (0x30 + n)] else natDigitsF f (n / 10) ++ [UInt8.ofNat (0x30 + n % 10)]
+  | f + 1, n => if n < 10 then [digitChar n] else natDigitsF f (n / 10) ++ [digitChar (n % 10)]
 
 def natDigits (n : Nat) : Bytes := natDigitsF 20 n
 
@@ -272,123 +274,123 @@ def isDigit19 (c : UInt8) : Bool := 0x31 ≤ c.toNat && c.toNat ≤ 0x39
 def isHex (c : UInt8) : Bool :=
   (0x30 ≤ c.toNat && c.toNat ≤ 0x39) || (0x61 ≤ c.toNat && c.toNat ≤ 0x66) || (0x41 ≤ c.toNat && c.toNat ≤ 0x46)
 
-def fail (σ : List PS) (ctx : String) : Tr := { step := .error, stack := σ, op := .error, err := some ctx }
-def goto (st : Step) (σ : List PS) (op : Op) : Tr := { step := st, stack := σ, op := op }
+def failAt (σ : List PS) (ctx : String) : Tr := { step := .error, stack := σ, op := .error, err := some ctx }
+def goTo (st : Step) (σ : List PS) (op : Op) : Tr := { step := st, stack := σ, op := op }
 
 def stateEndTop (σ : List PS) (c : UInt8) : Tr :=
   if !isSpace c then { step := .error, stack := σ, op := .end_, err := some "after top-level value" }
-  else goto .endTop σ .end_
+  else goTo .endTop σ .end_
 
 /-- `popParseState` followed by `return op`; `σ` is the stack after the pop. -/
 def popTo (σ : List PS) (op : Op) : Tr :=
   match σ with
   | [] => { step := .endTop, stack := [], op := op, endTop := true }
-  | _ :: _ => goto .endValue σ op
+  | _ :: _ => goTo .endValue σ op
 
 def stateEndValue (σ : List PS) (c : UInt8) : Tr :=
   match σ with
   | [] => { stateEndTop [] c with endTop := true }
   | ps :: rest =>
-    if isSpace c then goto .endValue σ .skipSpace
+    if isSpace c then goTo .endValue σ .skipSpace
     else match ps with
       | .objKey =>
-        if c = 0x3A then goto .beginValue (.objVal :: rest) .objectKey
-        else fail σ "after object key"
+        if c = 0x3A then goTo .beginValue (.objVal :: rest) .objectKey
+        else failAt σ "after object key"
       | .objVal =>
-        if c = 0x2C then goto .beginString (.objKey :: rest) .objectValue
+        if c = 0x2C then goTo .beginString (.objKey :: rest) .objectValue
         else if c = 0x7D then popTo rest .endObject
-        else fail σ "after object key:value pair"
+        else failAt σ "after object key:value pair"
       | .arr =>
-        if c = 0x2C then goto .beginValue σ .arrayValue
+        if c = 0x2C then goTo .beginValue σ .arrayValue
         else if c = 0x5D then popTo rest .endArray
-        else fail σ "after array element"
+        else failAt σ "after array element"
 
 def stateBeginValue (σ : List PS) (c : UInt8) : Tr :=
-  if isSpace c then goto .beginValue σ .skipSpace
-  else if c = 0x7B then goto .beginStringOrEmpty (.objKey :: σ) .beginObject
-  else if c = 0x5B then goto .beginValueOrEmpty (.arr :: σ) .beginArray
-  else if c = 0x22 then goto .inString σ .beginLiteral
-  else if c = 0x2D then goto .neg σ .beginLiteral
-  else if c = 0x30 then goto .s0 σ .beginLiteral
-  else if c = 0x74 then goto .t σ .beginLiteral
-  else if c = 0x66 then goto .f σ .beginLiteral
-  else if c = 0x6E then goto .n σ .beginLiteral
-  else if isDigit19 c then goto .s1 σ .beginLiteral
-  else fail σ "looking for beginning of value"
+  if isSpace c then goTo .beginValue σ .skipSpace
+  else if c = 0x7B then goTo .beginStringOrEmpty (.objKey :: σ) .beginObject
+  else if c = 0x5B then goTo .beginValueOrEmpty (.arr :: σ) .beginArray
+  else if c = 0x22 then goTo .inString σ .beginLiteral
+  else if c = 0x2D then goTo .neg σ .beginLiteral
+  else if c = 0x30 then goTo .s0 σ .beginLiteral
+  else if c = 0x74 then goTo .t σ .beginLiteral
+  else if c = 0x66 then goTo .f σ .beginLiteral
+  else if c = 0x6E then goTo .n σ .beginLiteral
+  else if isDigit19 c then goTo .s1 σ .beginLiteral
+  else failAt σ "looking for beginning of value"
 
 def stateBeginValueOrEmpty (σ : List PS) (c : UInt8) : Tr :=
-  if isSpace c then goto .beginValueOrEmpty σ .skipSpace
+  if isSpace c then goTo .beginValueOrEmpty σ .skipSpace
   else if c = 0x5D then stateEndValue σ c
   else stateBeginValue σ c
 
 def stateBeginString (σ : List PS) (c : UInt8) : Tr :=
-  if isSpace c then goto .beginString σ .skipSpace
-  else if c = 0x22 then goto .inString σ .beginLiteral
-  else fail σ "looking for beginning of object key string"
+  if isSpace c then goTo .beginString σ .skipSpace
+  else if c = 0x22 then goTo .inString σ .beginLiteral
+  else failAt σ "looking for beginning of object key string"
 
 /-- On `}` Go executes `s.parseState[n-1] = parseObjectValue`, an index panic on an empty stack
 (`err = "go-panic"`; unreachable: the state is entered only right after a push). -/
 def stateBeginStringOrEmpty (σ : List PS) (c : UInt8) : Tr :=
-  if isSpace c then goto .beginStringOrEmpty σ .skipSpace
+  if isSpace c then goTo .beginStringOrEmpty σ .skipSpace
   else if c = 0x7D then
     match σ with
-    | [] => fail [] "go-panic"
+    | [] => failAt [] "go-panic"
     | _ :: rest => stateEndValue (.objVal :: rest) c
   else stateBeginString σ c
 
 def stateInString (σ : List PS) (c : UInt8) : Tr :=
-  if c = 0x22 then goto .endValue σ .continue_
-  else if c = 0x5C then goto .inStringEsc σ .continue_
-  else if c.toNat < 0x20 then fail σ "in string literal"
-  else goto .inString σ .continue_
+  if c = 0x22 then goTo .endValue σ .continue_
+  else if c = 0x5C then goTo .inStringEsc σ .continue_
+  else if c.toNat < 0x20 then failAt σ "in string literal"
+  else goTo .inString σ .continue_
 
 def isSimpleEsc (c : UInt8) : Bool :=
   c = 0x62 || c = 0x66 || c = 0x6E || c = 0x72 || c = 0x74 || c = 0x5C || c = 0x2F || c = 0x22
 
 def stateInStringEsc (σ : List PS) (c : UInt8) : Tr :=
-  if isSimpleEsc c then goto .inString σ .continue_
-  else if c = 0x75 then goto .inStringEscU σ .continue_
-  else fail σ "in string escape code"
+  if isSimpleEsc c then goTo .inString σ .continue_
+  else if c = 0x75 then goTo .inStringEscU σ .continue_
+  else failAt σ "in string escape code"
 
 def stateHex (next : Step) (σ : List PS) (c : UInt8) : Tr :=
-  if isHex c then goto next σ .continue_ else fail σ "in \\u hexadecimal character escape"
+  if isHex c then goTo next σ .continue_ else failAt σ "in \\u hexadecimal character escape"
 
 def stateNeg (σ : List PS) (c : UInt8) : Tr :=
-  if c = 0x30 then goto .s0 σ .continue_
-  else if isDigit19 c then goto .s1 σ .continue_
-  else fail σ "in numeric literal"
+  if c = 0x30 then goTo .s0 σ .continue_
+  else if isDigit19 c then goTo .s1 σ .continue_
+  else failAt σ "in numeric literal"
 
 def state0 (σ : List PS) (c : UInt8) : Tr :=
-  if c = 0x2E then goto .dot σ .continue_
-  else if c = 0x65 || c = 0x45 then goto .e σ .continue_
+  if c = 0x2E then goTo .dot σ .continue_
+  else if c = 0x65 || c = 0x45 then goTo .e σ .continue_
   else stateEndValue σ c
 
 def state1 (σ : List PS) (c : UInt8) : Tr :=
-  if isDigit c then goto .s1 σ .continue_ else state0 σ c
+  if isDigit c then goTo .s1 σ .continue_ else state0 σ c
 
 def stateDot (σ : List PS) (c : UInt8) : Tr :=
-  if isDigit c then goto .dot0 σ .continue_ else fail σ "after decimal point in numeric literal"
+  if isDigit c then goTo .dot0 σ .continue_ else failAt σ "after decimal point in numeric literal"
 
 def stateDot0 (σ : List PS) (c : UInt8) : Tr :=
-  if isDigit c then goto .dot0 σ .continue_
-  else if c = 0x65 || c = 0x45 then goto .e σ .continue_
+  if isDigit c then goTo .dot0 σ .continue_
+  else if c = 0x65 || c = 0x45 then goTo .e σ .continue_
   else stateEndValue σ c
 
 def stateESign (σ : List PS) (c : UInt8) : Tr :=
-  if isDigit c then goto .e0 σ .continue_ else fail σ "in exponent of numeric literal"
+  if isDigit c then goTo .e0 σ .continue_ else failAt σ "in exponent of numeric literal"
 
 def stateE (σ : List PS) (c : UInt8) : Tr :=
-  if c = 0x2B || c = 0x2D then goto .eSign σ .continue_ else stateESign σ c
+  if c = 0x2B || c = 0x2D then goTo .eSign σ .continue_ else stateESign σ c
 
 def stateE0 (σ : List PS) (c : UInt8) : Tr :=
-  if isDigit c then goto .e0 σ .continue_ else stateEndValue σ c
+  if isDigit c then goTo .e0 σ .continue_ else stateEndValue σ c
 
 /-- The `stateT … stateNul` family: expect exactly `want`. -/
 def stateLit (want : UInt8) (next : Step) (ctx : String) (σ : List PS) (c : UInt8) : Tr :=
-  if c = want then goto next σ .continue_ else fail σ ctx
+  if c = want then goTo next σ .continue_ else failAt σ ctx
 
 /-- `s.step(s, c)` on the control part of the scanner. -/
-def trans (st : Step) (σ : List PS) (c : UInt8) : Tr :=
+def delta (st : Step) (σ : List PS) (c : UInt8) : Tr :=
   match st with
   | .beginValueOrEmpty => stateBeginValueOrEmpty σ c
   | .beginValue => stateBeginValue σ c
@@ -436,7 +438,7 @@ def Scanner.reset (s : Scanner) : Scanner :=
 
 /-- `s.step(s, c)`: new scanner and opcode. -/
 def Scanner.step1 (s : Scanner) (c : UInt8) : Scanner × Op :=
-  let t := trans s.step s.stack c
+  let t := delta s.step s.stack c
   ({ step := t.step, stack := t.stack, endTop := s.endTop || t.endTop, bytes := s.bytes,
      err := match t.err with
        | some ctx => some { bad := some c, ctx := ctx, offset := s.bytes }
